@@ -207,6 +207,45 @@ func tableSpecFormats() ([]byte, []string) {
 	return b, names
 }
 
+// tableSpecResponses: every response layout — JSON model, primitive, array, map, no body, headers only, binary stream —
+// at every kind of status code (2xx, non-2xx, default), alone and combined.
+func tableSpecResponses() []byte {
+	bin := map[string]interface{}{"type": "string", "format": "binary"}
+	file := map[string]interface{}{"type": "file"}
+	ref := map[string]interface{}{"$ref": "#/definitions/item"}
+	hdr := map[string]interface{}{"X-Count": map[string]interface{}{"type": "integer"}, "X-Tags": map[string]interface{}{"type": "array", "items": map[string]interface{}{"type": "string"}}}
+	r := func(desc string, schema interface{}, headers interface{}) map[string]interface{} {
+		m := map[string]interface{}{"description": desc}
+		if schema != nil {
+			m["schema"] = schema
+		}
+		if headers != nil {
+			m["headers"] = headers
+		}
+		return m
+	}
+	op := func(id string, produces []string, resps map[string]interface{}) map[string]interface{} {
+		return map[string]interface{}{"operationId": id, "produces": produces, "responses": resps,
+			"parameters": []interface{}{map[string]interface{}{"name": "id", "in": "path", "required": true, "type": "string"}}}
+	}
+	js, oct := []string{"application/json"}, []string{"application/json", "application/octet-stream"}
+	paths := map[string]interface{}{
+		"/a/{id}": map[string]interface{}{"get": op("modelThenStreamOnError", oct, map[string]interface{}{"200": r("ok", ref, nil), "410": r("gone", bin, nil)})},
+		"/b/{id}": map[string]interface{}{"get": op("streamThenModel", oct, map[string]interface{}{"200": r("ok", file, nil), "default": r("err", ref, nil)})},
+		"/c/{id}": map[string]interface{}{"get": op("headersOnly", js, map[string]interface{}{"200": r("ok", nil, hdr), "404": r("nf", map[string]interface{}{"type": "string"}, nil),
+			"500": r("err", map[string]interface{}{"type": "array", "items": ref}, hdr)})},
+		"/d/{id}": map[string]interface{}{"get": op("defaultStreamOnly", oct, map[string]interface{}{"default": r("any", bin, nil)})},
+		"/e/{id}": map[string]interface{}{"get": op("primitiveMapNone", js, map[string]interface{}{"200": r("ok", map[string]interface{}{"type": "integer", "format": "int32"}, nil),
+			"201": r("created", map[string]interface{}{"type": "object", "additionalProperties": ref}, nil), "204": r("none", nil, nil)})},
+		"/f/{id}": map[string]interface{}{"get": op("streamEverywhere", oct, map[string]interface{}{"200": r("ok", bin, hdr), "202": r("later", bin, nil), "409": r("conflict", bin, nil), "default": r("err", bin, nil)})},
+		"/g/{id}": map[string]interface{}{"get": op("redirectStream", oct, map[string]interface{}{"200": r("ok", ref, nil), "302": r("moved", bin, nil), "503": r("busy", file, nil)})},
+	}
+	doc := map[string]interface{}{"swagger": "2.0", "info": map[string]interface{}{"title": "responses", "version": "1"}, "consumes": []string{"application/json"}, "produces": []string{"application/json"},
+		"paths": paths, "definitions": map[string]interface{}{"item": map[string]interface{}{"type": "object", "properties": map[string]interface{}{"name": map[string]interface{}{"type": "string"}}}}}
+	b, _ := json.MarshalIndent(doc, "", " ")
+	return b
+}
+
 // CheckC01 — generated code always builds.
 func CheckC01(run *ev.Run) {
 	r := rng.New(uint64(run.Seed) + 1)
@@ -223,7 +262,7 @@ func CheckC01(run *ev.Run) {
 	st := map[string]int{}
 	feat := map[string]int{}
 	run.Rule = "(a) table-directed specs: one definition per go/build file-name token (thing_<t>, all referenced), every format of formatMapping as query / header / array-item parameter, " +
-		"response header and model property; (b) a stream of valid specs covering every schema shape, parameter location, collectionFormat and response layout of the quantifier with names from a " +
+		"response header and model property, every response layout (model / primitive / array / map / none / headers only / binary stream) at 2xx, non-2xx and default codes; (b) a stream of valid specs covering every schema shape, parameter location, collectionFormat and response layout of the quantifier with names from a " +
 		"180-entry adversarial pool (keywords, predeclared identifiers, identifiers of the generated code, file-name tokens, punctuation, digits, spaces, non-ASCII); each spec is generated as " +
 		"server + client into one module and as cli (with its own client) into another, under minimal flatten / full flatten / expand in rotation and compiled with go build ./...; (c) the manglers against the Lean functions on " +
 		"the whole pool; distinct = spec content x mode"
@@ -394,6 +433,7 @@ func CheckC01(run *ev.Run) {
 	fdoc, fnames := tableSpecFormats()
 	st["formats-probed"] = len(fnames)
 	build("c01fmt", fdoc, nil, []string{"server", "client"}, nil, "format tables")
+	build("c01rsp", tableSpecResponses(), nil, []string{"server", "client"}, nil, "response layouts")
 	report()
 	jobs = nil
 	if len(excluded) > 0 && !run.HasConcrete() {
